@@ -366,6 +366,36 @@ def o2(ctx):
                 iv = calls[ii][1][2] if len(calls[ii][1]) > 2 else None
                 ctx.check(iv == v, "O6:inserted-value-is-returned", "the value inserted into named_map (%r) is the slot returned" % (iv,), "named_map gets %r but the slot returned is %r" % (iv, v), where_of(ncl))
                 ctx.check(isinstance(iv, Aff) and iv.mod4() == 2, "O6:map-values-2mod4", "values inserted into named_map are 2 mod 4 (inductive invariant)", "named_map receives %r" % (iv,), where_of(ncl))
+    # the interning table is keyed by the WHOLE name as given: what is looked up, inserted and pushed is the name parameter itself
+    # (modulo ownership conversions) — not a trimmed / stripped / sliced / case-folded version of it, which would make two
+    # different names one slot
+    TRANSPARENT = {"to_string", "to_owned", "clone", "as_str", "borrow", "deref", "as_ref", "into", "from", "to_str", "as_mut"}
+    tab = slot_table(crate)
+    nroot = crate.root_of(ncl.origin if hasattr(ncl, "origin") else ncl)
+    name_params = [nroot.var_names.get(l) for l in range(1, nroot.argc + 1) if nroot.local_ty(l).lstrip("&").strip() in ("str", "std::string::String")]
+
+    def whole_name(r):
+        r = strip_role(r)
+        for _ in range(8):
+            if isinstance(r, tuple) and r[0] == "call" and r[1] in TRANSPARENT and r[3]:
+                r = strip_role(r[3][0])
+            elif isinstance(r, tuple) and r[0] == "upvar":
+                r = strip_role(r[2])
+            else:
+                break
+        return isinstance(r, tuple) and r[0] == "param" and r[1] in name_params
+    nkeys = 0
+    for c in ncl.calls:
+        if ncl.blocks[c.bb]["cleanup"] or not c.callee or c.callee.name not in ("get", "insert", "push", "contains_key", "entry") or len(c.args) < 2:
+            continue
+        tgt = ncl.role_of_operand(c.args[0])
+        if not any(role_mentions_field(tgt, f_) for f_ in (tab["vec"], tab["map"])):
+            continue
+        nkeys += 1
+        k = ncl.role_of_operand(c.args[1])
+        ctx.check(whole_name(k), "O6:table-keyed-by-whole-name:%s" % c.callee.name, "the interning table is accessed with the name exactly as given (%s)" % c.callee.name,
+                  "Slot::named %ss the interning table with %s, not with the name it was given: two different names (e.g. `x` and `$x`) are interned as one slot, a name can be stored under a spelling that denotes a different kind of slot when printed and parsed back, and the fresh counter is not moved past it" % (c.callee.name, role_str(k)[:70]), where_of(ncl, c.bb))
+    ctx.floor("accesses of the interning table in Slot::named", nkeys, 3)
     ctx.check(kinds["f"] >= 2 and kinds["hit"] >= 1 and kinds["new"] >= 1, "paths-covered", "paths through Slot::named's closure: %s" % kinds, "unexpected path structure in Slot::named: %s" % kinds, where_of(ncl))
     ctx.floor("Slot(..) constructions interpreted", sites, 4)
     ctx.extra["obligation_paths"] = {"named_closure_paths": len(paths)}
